@@ -289,6 +289,22 @@ Proof.
   apply in_map_iff. exists w'. split; [lia | exact Hw'].
 Qed.
 
+(* ------------------------------------------------------------------ map helpers *)
+Lemma map_eq_length {A B} (h : A -> B) l l' : map h l = l' -> length l' = length l.
+Proof. intros <-. apply map_length. Qed.
+
+Lemma map_eq_map {A B C} (h : A -> B) (g : B -> C) (k : A -> C) l l' :
+  map h l = l' -> (forall a b, In a l -> h a = b -> g b = k a) -> map g l' = map k l.
+Proof. intros <- H. rewrite map_map. apply map_ext_in. intros a Ha. now apply H. Qed.
+
+Lemma map_In_both {A B} (h : A -> B) l l' : map h l = l' ->
+  (forall a, In a l -> exists b, In b l' /\ h a = b) /\ (forall b, In b l' -> exists a, In a l /\ h a = b).
+Proof.
+  intros <-. split.
+  - intros a Ha. exists (h a). split; [now apply in_map | reflexivity].
+  - intros b Hb. apply in_map_iff in Hb. destruct Hb as [a [E Ha]]. eauto.
+Qed.
+
 Section W.
 Variable enc_body : parsed -> uval -> option Z.
 
@@ -312,43 +328,37 @@ Proof.
 Qed.
 
 (* ------------------------------------------------------------------ the state of one request after building *)
-Definition wstate_of (q : preq) (v : uval) : wstate :=
-  match q_parsed q with
-  | inr _ => WParseErr
-  | inl p => if is_bit_write p then WBit
-             else match encode_value enc_body p v with None => WEncErr | Some (_, p') => WVal p' end
-  end.
+Definition wstate_of (c : cfg) (q : preq) (v : uval) : wstate := snd (mk_wreq enc_body c (q, v)).
 
 Definition st_valid (st : wstate) : bool := match st with WBit => true | WVal _ => true | _ => false end.
 
-Lemma mk_wreq_spec c q v w st : mk_wreq enc_body c (q, v) = Ok (w, st) ->
-  st = wstate_of q v /\ w_id w = q_id q
+Lemma mk_wreq_spec c q v w st : mk_wreq enc_body c (q, v) = (w, st) ->
+  st = wstate_of c q v /\ w_id w = q_id q
   /\ (negb (w_err w) && (w_bit w || negb (w_enc_err w))) = st_valid st
   /\ w_bit w = (match st with WBit => true | _ => false end)
-  /\ (forall p, q_parsed q = inl p -> w_tag w = plc_tag p).
+  /\ (forall p, q_parsed q = inl p -> w_err w = false -> w_tag w = plc_tag p).
 Proof.
-  unfold mk_wreq, wstate_of. destruct (q_parsed q) as [p|e].
+  intros H. unfold wstate_of. rewrite H. split; [reflexivity|]. revert H.
+  unfold mk_wreq. destruct (q_parsed q) as [p|e].
   - destruct (is_bit_write p).
-    + destruct (rmw_init c p); cbn; [|discriminate]. intros H; inversion H; subst. cbn.
-      repeat split. intros p0 Hp; now inversion Hp.
+    + destruct (rmw_build c p); intros H; inversion H; subst; cbn; repeat split; try discriminate.
+      intros p0 Hp _; now inversion Hp.
     + destruct (encode_value enc_body p v) as [[n p']|].
-      * destruct (write_msg_len c p' n); cbn; [|discriminate]. intros H; inversion H; subst. cbn.
-        repeat split. intros p0 Hp; now inversion Hp.
-      * intros H; inversion H; subst. cbn. repeat split. intros p0 Hp; now inversion Hp.
+      * destruct (write_msg_len c p' n); intros H; inversion H; subst; cbn; repeat split; try discriminate.
+        intros p0 Hp _; now inversion Hp.
+      * intros H; inversion H; subst. cbn. repeat split. intros p0 Hp _; now inversion Hp.
   - intros H; inversion H; subst. cbn. repeat split. intros p0 Hp; discriminate.
 Qed.
 
 Lemma run_write_eq c db P tvs r : run_write enc_body c db P tvs = Ok r ->
   let qs := parse_requested_tags db RwWrite (map fst tvs) in
   let qvs := combine qs (map snd tvs) in
-  exists plan sts rs, write_build enc_body c qvs = Ok (plan, sts)
-    /\ forallb (rmw_packet_ok qvs) plan = true
+  exists plan sts rs, write_build enc_body c qvs = (plan, sts)
     /\ fan_out plan (send_requests (plc_of qs) P plan) = Ok rs
     /\ r = shape (map (assemble_write (uses_multi c (length tvs)) rs) (combine qvs sts)).
 Proof.
   unfold run_write. cbn zeta.
-  destruct (write_build enc_body c _) as [[plan sts]|e] eqn:EB; cbn; [|discriminate].
-  destruct (forallb _ plan) eqn:EF; [|discriminate].
+  destruct (write_build enc_body c _) as [plan sts] eqn:EB.
   destruct (fan_out plan _) as [rs|e] eqn:EO; cbn; [|discriminate].
   intros H; inversion H. exists plan, sts, rs. auto.
 Qed.
@@ -356,18 +366,15 @@ Qed.
 Lemma combine_length_eq {A B} (a : list A) (b : list B) : length a = length b -> length (combine a b) = length a.
 Proof. intros H. rewrite combine_length. lia. Qed.
 
-Lemma write_build_lengths c qvs plan sts : write_build enc_body c qvs = Ok (plan, sts) -> length sts = length qvs.
-Proof.
-  unfold write_build. destruct (map_res _ qvs) as [ws|e] eqn:E; cbn; [|discriminate].
-  intros H; inversion H; subst. rewrite map_length. apply (map_res_ok _ _ _ E).
-Qed.
+Lemma write_build_lengths c qvs plan sts : write_build enc_body c qvs = (plan, sts) -> length sts = length qvs.
+Proof. unfold write_build. intros H; inversion H; subst. now rewrite !map_length. Qed.
 
 Theorem write_result_shape c db P tvs r : run_write enc_body c db P tvs = Ok r ->
   length (results_of r) = length tvs
   /\ (length tvs = 1%nat -> exists t, r = ROne t)
   /\ (length tvs <> 1%nat -> exists l, r = RList l /\ length l = length tvs).
 Proof.
-  intros H. destruct (run_write_eq _ _ _ _ _ H) as [plan [sts [rs [HB [_ [_ ->]]]]]].
+  intros H. destruct (run_write_eq _ _ _ _ _ H) as [plan [sts [rs [HB [_ ->]]]]].
   set (l := map _ _).
   assert (HL : length l = length tvs).
   { unfold l. rewrite map_length. pose proof (write_build_lengths _ _ _ _ HB) as HS.
@@ -412,25 +419,41 @@ Proof. induction tvs as [|tv tvs IH]; intros i; cbn; [reflexivity | now rewrite 
 Lemma combine_map_self {A B} (h : A -> B) : forall l, combine l (map h l) = map (fun x => (x, h x)) l.
 Proof. induction l as [|a l IH]; cbn; [reflexivity | now rewrite IH]. Qed.
 
-Lemma write_build_states c qvs plan sts : write_build enc_body c qvs = Ok (plan, sts) ->
-  sts = map (fun qv => wstate_of (fst qv) (snd qv)) qvs.
+Lemma write_build_states c qvs plan sts : write_build enc_body c qvs = (plan, sts) ->
+  sts = map (fun qv => wstate_of c (fst qv) (snd qv)) qvs.
 Proof.
-  unfold write_build. destruct (map_res _ qvs) as [ws|e] eqn:E; cbn; [|discriminate].
-  intros H; inversion H; subst.
-  apply (map_res_ok_map _ snd (fun qv => wstate_of (fst qv) (snd qv)) _ _ E).
-  intros [q v] [w st] _ Hm. cbn. now destruct (mk_wreq_spec _ _ _ _ _ Hm) as [-> _].
+  unfold write_build. intros H; inversion H; subst. rewrite map_map. apply map_ext. intros [q v]. reflexivity.
 Qed.
 
 (* ------------------------------------------------------------------ names of any peer *)
-Lemma assemble_write_name multi rs q v :
-  let t := assemble_write multi rs (q, v, wstate_of q v) in
+Lemma wstate_of_eq c q v :
+  wstate_of c q v =
+  match q_parsed q with
+  | inr _ => WParseErr
+  | inl p =>
+      if is_bit_write p then match rmw_build c p with Ok _ => WBit | Err e => WBuildErr e end
+      else match encode_value enc_body p v with
+           | None => WEncErr
+           | Some (n, p') => match write_msg_len c p' n with Ok _ => WVal p' | Err e => WBuildErr e end
+           end
+  end.
+Proof.
+  unfold wstate_of, mk_wreq. destruct (q_parsed q) as [p|e]; [|reflexivity].
+  destruct (is_bit_write p); [destruct (rmw_build c p); reflexivity|].
+  destruct (encode_value enc_body p v) as [[n p']|]; [|reflexivity]. destruct (write_msg_len c p' n); reflexivity.
+Qed.
+
+Lemma assemble_write_name c multi rs q v :
+  let t := assemble_write multi rs (q, v, wstate_of c q v) in
   (t_tag t = q_request q /\ truthy t = false)
   \/ (exists p, q_parsed q = inl p /\ t_tag t = ReqText (user_tag p)).
 Proof.
-  cbn zeta. unfold assemble_write, wstate_of. destruct (q_parsed q) as [p|e] eqn:EP; [|left; split; reflexivity].
+  cbn zeta. unfold assemble_write. rewrite wstate_of_eq. destruct (q_parsed q) as [p|e] eqn:EP; [|left; split; reflexivity].
   destruct (is_bit_write p).
-  - destruct (rlookup (q_id q) rs); [right; exists p; split; reflexivity | left; split; reflexivity].
+  - destruct (rmw_build c p); [|left; split; reflexivity].
+    destruct (rlookup (q_id q) rs); [right; exists p; split; reflexivity | left; split; reflexivity].
   - destruct (encode_value enc_body p v) as [[n p']|] eqn:EE; [|left; split; reflexivity].
+    destruct (write_msg_len c p' n); [|left; split; reflexivity].
     destruct (rlookup (q_id q) rs); [|left; split; reflexivity].
     right. exists p. split; [reflexivity|]. cbn. destruct (encode_value_fields _ _ _ _ EE) as [-> _]. reflexivity.
 Qed.
@@ -442,49 +465,73 @@ Theorem write_result_names c db P tvs r : run_write enc_body c db P tvs = Ok r -
     (t_tag t = rq /\ truthy t = false)
     \/ (exists s, rq = ReqText s /\ t_tag t = ReqText (drop_count s)).
 Proof.
-  intros H k Hk. destruct (run_write_eq _ _ _ _ _ H) as [plan [sts [rs [HB [_ [_ ->]]]]]]. rewrite results_of_shape.
+  intros H k Hk. destruct (run_write_eq _ _ _ _ _ H) as [plan [sts [rs [HB [_ ->]]]]]. rewrite results_of_shape.
   rewrite (write_build_states _ _ _ _ HB). unfold parse_requested_tags. rewrite qvs_from_eq, combine_map_self, map_map.
-  set (F := fun x : preq * uval => assemble_write (uses_multi c (length tvs)) rs (x, wstate_of (fst x) (snd x))).
+  set (F := fun x : preq * uval => assemble_write (uses_multi c (length tvs)) rs (x, wstate_of c (fst x) (snd x))).
   rewrite (nth_indep _ _ (F (dflt_q, snd dflt_tv))) by (rewrite map_length, qvs_from_length; exact Hk).
   rewrite (map_nth F). rewrite qvs_from_nth by exact Hk. unfold F. cbn [fst snd]. cbn zeta.
   set (rq := fst (nth k tvs dflt_tv)). set (v := snd (nth k tvs dflt_tv)).
   set (q := mkPreq (0 + Z.of_nat k) rq (parse_request_obj db RwWrite rq)).
-  destruct (assemble_write_name (uses_multi c (length tvs)) rs q v) as [A|[p [EP A]]]; [left; exact A|].
+  destruct (assemble_write_name c (uses_multi c (length tvs)) rs q v) as [A|[p [EP A]]]; [left; exact A|].
   right. cbn [q_parsed q] in EP. destruct rq as [s|x]; cbn [parse_request_obj] in EP; [|discriminate].
   exists s. split; [reflexivity|]. rewrite A. f_equal. eapply user_tag_is_request_without_count, EP.
 Qed.
 
+Definition build_prefix (multi : bool) : text := if multi then err_build else err_encoding_single.
+
 (* requests that cannot succeed before anything is sent: a falsy Tag with the request as name and a
-   non-empty error (parse errors; unencodable / too short values, misaligned BOOL-array writes) *)
+   non-empty error: parse errors; unencodable / too short values, misaligned BOOL-array writes; packets
+   that cannot be built (malformed or out-of-range index, element count that is not a UINT, a bit of a
+   non-elementary type, a bit number outside the type) *)
 Theorem write_invalid_falsy c db P tvs r : run_write enc_body c db P tvs = Ok r ->
   forall k, (k < length tvs)%nat ->
     let t := nth k (results_of r) (exc_tag (ReqOther TypeError) TypeError) in
     let rq := fst (nth k tvs dflt_tv) in
+    let v := snd (nth k tvs dflt_tv) in
+    let multi := uses_multi c (length tvs) in
     (forall e, parse_request_obj db RwWrite rq = inr e ->
        t = mkTag rq VNone None (Some (perr_text e)) /\ truthy t = false /\ perr_text e <> [])
     /\ (forall p, parse_request_obj db RwWrite rq = inl p -> is_bit_write p = false ->
-          encode_value enc_body p (snd (nth k tvs dflt_tv)) = None ->
-          t = mkTag rq VNone None (Some (enc_err_text (uses_multi c (length tvs))))
-          /\ truthy t = false /\ enc_err_text (uses_multi c (length tvs)) <> []).
+          encode_value enc_body p v = None ->
+          t = mkTag rq VNone None (Some (enc_err_text multi)) /\ truthy t = false /\ enc_err_text multi <> [])
+    /\ (forall p e, parse_request_obj db RwWrite rq = inl p -> is_bit_write p = true -> rmw_build c p = Err e ->
+          t = build_err_tag rq (build_prefix multi) e /\ truthy t = false)
+    /\ (forall p n p' e, parse_request_obj db RwWrite rq = inl p -> is_bit_write p = false ->
+          encode_value enc_body p v = Some (n, p') -> write_msg_len c p' n = Err e ->
+          t = build_err_tag rq (build_prefix multi) e /\ truthy t = false).
 Proof.
-  intros H k Hk. destruct (run_write_eq _ _ _ _ _ H) as [plan [sts [rs [HB [_ [_ ->]]]]]]. rewrite results_of_shape.
+  intros H k Hk. destruct (run_write_eq _ _ _ _ _ H) as [plan [sts [rs [HB [_ ->]]]]]. rewrite results_of_shape.
   rewrite (write_build_states _ _ _ _ HB). unfold parse_requested_tags. rewrite qvs_from_eq, combine_map_self, map_map.
-  set (F := fun x : preq * uval => assemble_write (uses_multi c (length tvs)) rs (x, wstate_of (fst x) (snd x))).
+  set (F := fun x : preq * uval => assemble_write (uses_multi c (length tvs)) rs (x, wstate_of c (fst x) (snd x))).
   rewrite (nth_indep _ _ (F (dflt_q, snd dflt_tv))) by (rewrite map_length, qvs_from_length; exact Hk).
   rewrite (map_nth F). rewrite qvs_from_nth by exact Hk. unfold F. cbn [fst snd]. cbn zeta.
-  unfold assemble_write, wstate_of. cbn [q_parsed q_request q_id]. split.
+  unfold assemble_write. rewrite wstate_of_eq. cbn [q_parsed q_request q_id]. split; [|split; [|split]].
   - intros e ->. split; [reflexivity|]. split; [reflexivity | apply perr_text_nonempty].
   - intros p -> Hb ->. rewrite Hb. split; [reflexivity|]. split; [reflexivity|].
     destruct (uses_multi c (length tvs)); cbn; discriminate.
+  - intros p e -> Hb ->. rewrite Hb. split; reflexivity.
+  - intros p n p' e -> Hb -> ->. rewrite Hb. split; reflexivity.
+Qed.
+
+(* a bit write to a tag whose type is not elementary, and a bit number outside the type, cannot be built *)
+Lemma rmw_build_rejects c p :
+  (rmw_mask_size (tag_info p) = None -> exists e, rmw_build c p = Err e)
+  /\ (forall z, rmw_mask_size (tag_info p) = Some z -> is_dword_name (tag_info p) = false -> z * 8 <= or0 (bit p) ->
+        exists e, rmw_build c p = Err e).
+Proof.
+  unfold rmw_build. split.
+  - intros ->. destruct (tag_path c _ _); cbn; eauto.
+  - intros z -> -> Hb. destruct (tag_path c _ _); cbn; [|eauto]. destruct (z =? 0); [eauto|].
+    destruct ((0 <=? or0 (bit p)) && (or0 (bit p) <? z * 8)) eqn:E; [lia | eauto].
 Qed.
 
 (* ------------------------------------------------------------------ independent peers *)
 Variable f : parsed -> uval -> reply.     (* the reply to a Write Tag service of (parsed after encode_value, value) *)
 Variable g : text -> reply.               (* the reply to a read-modify-write of the tag with this plc name *)
 
-Definition wreply (qvs : list (preq * uval)) (i : Z) : reply :=
+Definition wreply (c : cfg) (qvs : list (preq * uval)) (i : Z) : reply :=
   match List.find (fun qv => q_id (fst qv) =? i) qvs with
-  | Some (q, v) => match wstate_of q v with
+  | Some (q, v) => match wstate_of c q v with
                    | WVal p' => f p' v
                    | WBit => match q_parsed q with inl p => g (plc_tag p) | inr _ => no_reply_ end
                    | _ => no_reply_
@@ -497,19 +544,16 @@ Definition rmw_reply (names : Z -> option text) (plan : list packet) (rid : Z) :
   | Some (PRmw _ ids) => g (rmw_tag names ids)
   | _ => no_reply_
   end.
-Definition wone (qs : list preq) (qvs : list (preq * uval)) (plan : list packet) (i : Z) : reply :=
-  if i <? 0 then rmw_reply (plc_of qs) plan i else wreply qvs i.
-Definition wpeer (qs : list preq) (qvs : list (preq * uval)) (plan : list packet) : peer :=
-  mkPeer (wone qs qvs plan) (map (wone qs qvs plan)) (fun _ => None).
+Definition wone (c : cfg) (qs : list preq) (qvs : list (preq * uval)) (plan : list packet) (i : Z) : reply :=
+  if i <? 0 then rmw_reply (plc_of qs) plan i else wreply c qvs i.
+Definition wpeer (c : cfg) (qs : list preq) (qvs : list (preq * uval)) (plan : list packet) : peer :=
+  mkPeer (wone c qs qvs plan) (map (wone c qs qvs plan)) (fun _ => None).
 
 (* the peer of a write() call: the plan of that call decides which packet carries which request *)
 Definition wpeer_of (c : cfg) (db : tagdb) (tvs : list (request * uval)) : peer :=
   let qs := parse_requested_tags db RwWrite (map fst tvs) in
   let qvs := combine qs (map snd tvs) in
-  match write_build enc_body c qvs with
-  | Ok (plan, _) => wpeer qs qvs plan
-  | Err _ => mkPeer (fun _ => no_reply_) (map (fun _ => no_reply_)) (fun _ => None)
-  end.
+  wpeer c qs qvs (fst (write_build enc_body c qvs)).
 
 Definition reply_error (r : reply) : option text := if rp_ok r then None else Some (rp_error r).
 Lemma tag_of_reply_error n r : t_error (tag_of_reply n r) = reply_error r.
@@ -517,14 +561,22 @@ Proof. unfold tag_of_reply, reply_error. now destruct (rp_ok r). Qed.
 
 (* what write() returns for ONE (request, value), as a function of that pair only (and of which
    planner ran, which decides the wording of an encoding error) *)
-Definition write_outcome (multi : bool) (tv : request * uval) (pr : parsed + perr) : tag :=
+Definition write_outcome (c : cfg) (multi : bool) (tv : request * uval) (pr : parsed + perr) : tag :=
   match pr with
   | inr e => mkTag (fst tv) VNone None (Some (perr_text e))
   | inl p =>
-      if is_bit_write p then mkTag (ReqText (user_tag p)) (VUser (snd tv)) (Some (write_type p)) (reply_error (g (plc_tag p)))
+      if is_bit_write p then
+        match rmw_build c p with
+        | Err e => build_err_tag (fst tv) (build_prefix multi) e
+        | Ok _ => mkTag (ReqText (user_tag p)) (VUser (snd tv)) (Some (write_type p)) (reply_error (g (plc_tag p)))
+        end
       else match encode_value enc_body p (snd tv) with
            | None => mkTag (fst tv) VNone None (Some (enc_err_text multi))
-           | Some (_, p') => mkTag (ReqText (user_tag p')) (VUser (snd tv)) (Some (write_type p')) (reply_error (f p' (snd tv)))
+           | Some (n, p') =>
+               match write_msg_len c p' n with
+               | Err e => build_err_tag (fst tv) (build_prefix multi) e
+               | Ok _ => mkTag (ReqText (user_tag p')) (VUser (snd tv)) (Some (write_type p')) (reply_error (f p' (snd tv)))
+               end
            end
   end.
 
@@ -591,35 +643,16 @@ Proof.
   - exfalso. apply Hn. rewrite <- E. now apply in_map.
 Qed.
 
-Lemma map_res_In {A B} (h : A -> res B) : forall l l', map_res h l = Ok l' ->
-  (forall a, In a l -> exists b, In b l' /\ h a = Ok b) /\ (forall b, In b l' -> exists a, In a l /\ h a = Ok b).
+Lemma mk_wreq_err c q v w st : mk_wreq enc_body c (q, v) = (w, st) -> w_err w = false ->
+  exists p, q_parsed q = inl p.
 Proof.
-  induction l as [|a l IH]; intros l' H; cbn in H.
-  - inversion H. split; intros ? [].
-  - destruct (h a) as [b|e] eqn:Ea; cbn in H; [|discriminate].
-    destruct (map_res h l) as [bs|e] eqn:El; cbn in H; [|discriminate]. inversion H; subst l'.
-    destruct (IH bs eq_refl) as [I1 I2]. split.
-    + intros x [<-|Hx]; [exists b; split; [now left | exact Ea]|]. destruct (I1 x Hx) as [y [Hy E]]. exists y. split; [now right | exact E].
-    + intros y [<-|Hy]; [exists a; split; [now left | exact Ea]|]. destruct (I2 y Hy) as [x [Hx E]]. exists x. split; [now right | exact E].
+  unfold mk_wreq. destruct (q_parsed q) as [p|e]; [eauto|]. intros H; inversion H; subst. cbn. discriminate.
 Qed.
 
-Lemma mk_wreq_err c q v w st : mk_wreq enc_body c (q, v) = Ok (w, st) ->
-  w_err w = match q_parsed q with inr _ => true | inl _ => false end.
+Lemma wstate_bit c q v p : q_parsed q = inl p -> wstate_of c q v = WBit -> is_bit_write p = true.
 Proof.
-  unfold mk_wreq. destruct (q_parsed q) as [p|e].
-  - destruct (is_bit_write p).
-    + destruct (rmw_init c p); cbn; [|discriminate]. intros H; inversion H; subst. reflexivity.
-    + destruct (encode_value enc_body p v) as [[n p']|].
-      * destruct (write_msg_len c p' n); cbn; [|discriminate]. intros H; inversion H; subst. reflexivity.
-      * intros H; inversion H; subst. reflexivity.
-  - intros H; inversion H; subst. reflexivity.
-Qed.
-
-Lemma wstate_bit q v p : q_parsed q = inl p ->
-  (wstate_of q v = WBit <-> is_bit_write p = true).
-Proof.
-  intros EP. unfold wstate_of. rewrite EP. destruct (is_bit_write p); [tauto|].
-  destruct (encode_value enc_body p v) as [[n p']|]; split; intros H; discriminate.
+  intros EP. rewrite wstate_of_eq, EP. destruct (is_bit_write p); [reflexivity|].
+  destruct (encode_value enc_body p v) as [[n p']|]; [destruct (write_msg_len c p' n)|]; discriminate.
 Qed.
 
 (* everything the proof needs to know about the plan of a write() call *)
@@ -636,10 +669,10 @@ Section Lookup.
   Let ws := map fst wsst.
   Hypothesis NDq : NoDup (map q_id qs).
   Hypothesis POSq : forall q, In q qs -> 0 <= q_id q.
-  Hypothesis EW : map_res (mk_wreq enc_body c) qvs = Ok wsst.
+  Hypothesis EW : map (mk_wreq enc_body c) qvs = wsst.
   Hypothesis PF : plan_facts qs qvs ws plan.
 
-  Let P := wpeer qs qvs plan.
+  Let P := wpeer c qs qvs plan.
   Let S := send_requests (plc_of qs) P plan.
 
   Lemma NDqv : NoDup (map (fun qv => q_id (fst qv)) qvs).
@@ -648,7 +681,7 @@ Section Lookup.
   Lemma ws_ids : map w_id ws = map q_id qs.
   Proof.
     unfold ws, qs. rewrite !map_map.
-    apply (map_res_ok_map _ (fun x => w_id (fst x)) (fun x => q_id (fst x)) _ _ EW).
+    apply (map_eq_map _ (fun x => w_id (fst x)) (fun x => q_id (fst x)) _ _ EW).
     intros [q v] [w st] _ Hm. cbn. now destruct (mk_wreq_spec _ _ _ _ _ Hm) as [_ [-> _]].
   Qed.
 
@@ -656,17 +689,17 @@ Section Lookup.
   Proof. rewrite ws_ids. exact NDq. Qed.
 
   (* the wreq of a request *)
-  Lemma wreq_of q v : In (q, v) qvs -> exists w st, In (w, st) wsst /\ In w ws /\ mk_wreq enc_body c (q, v) = Ok (w, st).
+  Lemma wreq_of q v : In (q, v) qvs -> exists w st, In (w, st) wsst /\ In w ws /\ mk_wreq enc_body c (q, v) = (w, st).
   Proof.
-    intros H. destruct (map_res_In _ _ _ EW) as [I1 _]. destruct (I1 _ H) as [[w st] [Hb E]].
+    intros H. destruct (map_In_both _ _ _ EW) as [I1 _]. destruct (I1 _ H) as [[w st] [Hb E]].
     exists w, st. split; [exact Hb|]. split; [|exact E]. unfold ws. apply (in_map fst) in Hb. exact Hb.
   Qed.
 
   (* the request of a wreq *)
-  Lemma req_of w : In w ws -> exists q v st, In (q, v) qvs /\ mk_wreq enc_body c (q, v) = Ok (w, st).
+  Lemma req_of w : In w ws -> exists q v st, In (q, v) qvs /\ mk_wreq enc_body c (q, v) = (w, st).
   Proof.
     intros H. unfold ws in H. apply in_map_iff in H. destruct H as [[w' st] [<- Hin]].
-    destruct (map_res_In _ _ _ EW) as [_ I2]. destruct (I2 _ Hin) as [[q v] [Ha E]]. exists q, v, st. auto.
+    destruct (map_In_both _ _ _ EW) as [_ I2]. destruct (I2 _ Hin) as [[q v] [Ha E]]. exists q, v, st. auto.
   Qed.
 
   Lemma plan_ids_nonneg i : In i (plan_ids plan) -> 0 <= i.
@@ -682,10 +715,11 @@ Section Lookup.
     intros H. apply (pf_valid _ _ _ _ PF) in H. apply in_map_iff in H. destruct H as [w [<- Hw]].
     unfold wvalid in Hw. apply filter_In in Hw. destruct Hw as [Hw Hv].
     destruct (req_of w Hw) as [q [v [st [Hqv E]]]].
-    destruct (mk_wreq_spec _ _ _ _ _ E) as [_ [Hid _]]. pose proof (mk_wreq_err _ _ _ _ _ E) as He.
+    destruct (mk_wreq_spec _ _ _ _ _ E) as [_ [Hid _]].
+    assert (Herr : w_err w = false) by (destruct (w_err w); [discriminate | reflexivity]).
+    destruct (mk_wreq_err _ _ _ _ _ E Herr) as [p EP].
     assert (Hq : In q qs) by (unfold qs; apply (in_map fst) in Hqv; exact Hqv).
-    unfold name_of, plc_of. rewrite Hid, (find_q_In qs q NDq Hq).
-    destruct (q_parsed q); [reflexivity|]. rewrite He in Hv. discriminate.
+    unfold name_of, plc_of. rewrite Hid, (find_q_In qs q NDq Hq), EP. reflexivity.
   Qed.
 
   Lemma rids_neg r : In r (rids_of plan) -> r < 0.
@@ -726,20 +760,19 @@ Section Lookup.
     (* this request *)
     destruct (wreq_of q v Hqv) as [w [st [_ [Hw E]]]].
     destruct (mk_wreq_spec _ _ _ _ _ E) as [Hst [Hid [_ [Hbit Htag]]]].
-    destruct (Hmem _ Hin) as [w' [Hw' [Hid' [_ [Hb' Ht']]]]].
+    destruct (Hmem _ Hin) as [w' [Hw' [Hid' [He' [Hb' Ht']]]]].
     assert (w' = w) by (eapply unique_by_w_id; [apply NDw | exact Hw' | exact Hw | congruence]). subst w'.
     assert (Hbw : is_bit_write p = true).
-    { apply (wstate_bit q v p EP). rewrite <- Hst. rewrite Hb' in Hbit. destruct st; try discriminate. reflexivity. }
+    { apply (wstate_bit c q v p EP). rewrite <- Hst. rewrite Hb' in Hbit. destruct st; try discriminate. reflexivity. }
     split; [|exact Hbw].
     (* the first request of the group *)
     destruct ids as [|i0 ids']; [congruence|]. cbn [rmw_tag].
     destruct (Hmem i0 (or_introl eq_refl)) as [w0 [Hw0 [Hid0 [He0 [_ Ht0]]]]].
     destruct (req_of w0 Hw0) as [q0 [v0 [st0 [Hqv0 E0]]]].
-    destruct (mk_wreq_spec _ _ _ _ _ E0) as [_ [Hidq0 [_ [_ Htag0]]]]. pose proof (mk_wreq_err _ _ _ _ _ E0) as Herr0.
+    destruct (mk_wreq_spec _ _ _ _ _ E0) as [_ [Hidq0 [_ [_ Htag0]]]]. destruct (mk_wreq_err _ _ _ _ _ E0 He0) as [p0 EP0].
     assert (Hq0 : In q0 qs) by (unfold qs; apply (in_map fst) in Hqv0; exact Hqv0).
-    unfold plc_of. rewrite <- Hid0, Hidq0, (find_q_In qs q0 NDq Hq0).
-    destruct (q_parsed q0) as [p0|e0]; [|rewrite He0 in Herr0; discriminate].
-    rewrite <- (Htag0 p0 eq_refl), Ht0, <- Ht', (Htag p EP). reflexivity.
+    unfold plc_of. rewrite <- Hid0, Hidq0, (find_q_In qs q0 NDq Hq0), EP0.
+    rewrite <- (Htag0 p0 EP0 He0), Ht0, <- Ht', (Htag p EP He'). reflexivity.
   Qed.
 
   Lemma fan_out_ok : exists rs, fan_out plan S = Ok rs
@@ -758,9 +791,9 @@ Section Lookup.
   (* the result bound to a valid request after _send_requests and the fan-out *)
   Lemma write_lookup rs q v p :
     fan_out plan S = Ok rs -> In (q, v) qvs -> q_parsed q = inl p ->
-    (is_bit_write p = true ->
+    (is_bit_write p = true -> rmw_build c p = Ok tt ->
        exists t, rlookup (q_id q) rs = Some t /\ t_error t = reply_error (g (plc_tag p)))
-    /\ (forall n p', is_bit_write p = false -> encode_value enc_body p v = Some (n, p') ->
+    /\ (forall n p' m, is_bit_write p = false -> encode_value enc_body p v = Some (n, p') -> write_msg_len c p' n = Ok m ->
        exists t, rlookup (q_id q) rs = Some t /\ t_error t = reply_error (f p' v)).
   Proof.
     intros HF Hqv EP. destruct fan_out_ok as [rs' [HF' [FA FB]]]. rewrite HF in HF'. inversion HF'; subst rs'. clear HF'.
@@ -769,14 +802,14 @@ Section Lookup.
     assert (Hq : In q qs) by (unfold qs; apply (in_map fst) in Hqv; exact Hqv).
     assert (POS : 0 <= q_id q) by now apply POSq.
     (* the reply of the peer to this request's own id *)
-    assert (HP : p_one P (q_id q) = wreply qvs (q_id q)).
+    assert (HP : p_one P (q_id q) = wreply c qvs (q_id q)).
     { cbn [p_one P wpeer]. unfold wone. destruct (q_id q <? 0) eqn:E0; [lia | reflexivity]. }
-    assert (HWR : wreply qvs (q_id q) = match wstate_of q v with
-                                        | WVal p' => f p' v | WBit => g (plc_tag p) | _ => no_reply_ end).
+    assert (HWR : wreply c qvs (q_id q) = match wstate_of c q v with
+                                          | WVal p' => f p' v | WBit => g (plc_tag p) | _ => no_reply_ end).
     { unfold wreply. pose proof (find_by_id qvs NDqv (q, v) Hqv) as Hf. cbn [fst] in Hf. rewrite Hf, EP. reflexivity. }
     (* a valid request is in exactly one packet *)
     assert (VALID : st_valid st = true -> exists t, rlookup (q_id q) rs = Some t
-              /\ (t_error t = reply_error (match wstate_of q v with WVal p' => f p' v | WBit => g (plc_tag p) | _ => no_reply_ end)
+              /\ (t_error t = reply_error (match wstate_of c q v with WVal p' => f p' v | WBit => g (plc_tag p) | _ => no_reply_ end)
                   \/ (t_error t = reply_error (g (plc_tag p)) /\ is_bit_write p = true))).
     { intros Hv.
       assert (Hin : In (q_id q) (plan_ids plan)).
@@ -792,10 +825,10 @@ Section Lookup.
         + eexists. split; [reflexivity|]. left. rewrite tag_of_reply_error, HP, HWR. reflexivity.
         + exists pk. auto. }
     split.
-    - intros HB. assert (Hs : wstate_of q v = WBit) by (apply (wstate_bit q v p EP), HB).
+    - intros HB HR. assert (Hs : wstate_of c q v = WBit) by (rewrite wstate_of_eq, EP, HB, HR; reflexivity).
       rewrite Hs in VALID. rewrite Hst, Hs in VALID. destruct (VALID eq_refl) as [t [A [B|[B _]]]]; eauto.
-    - intros n p' HB HE.
-      assert (Hs : wstate_of q v = WVal p') by (unfold wstate_of; rewrite EP, HB, HE; reflexivity).
+    - intros n p' m HB HE HM.
+      assert (Hs : wstate_of c q v = WVal p') by (rewrite wstate_of_eq, EP, HB, HE, HM; reflexivity).
       rewrite Hs in VALID. rewrite Hst, Hs in VALID. destruct (VALID eq_refl) as [t [A [B|[B C]]]]; [eauto | congruence].
   Qed.
 End Lookup.
@@ -808,26 +841,16 @@ Variable enc_body : parsed -> uval -> option Z.
 Lemma Permutation_in_iff (l l' : list Z) : Permutation l l' -> forall x, In x l <-> In x l'.
 Proof. intros H x. split; intros Hx; [eapply Permutation_in; [exact H | exact Hx] | eapply Permutation_in; [apply Permutation_sym, H | exact Hx]]. Qed.
 
-(* the exceptions of write(): exactly these calls raise *)
-Definition write_guard (c : cfg) (db : tagdb) (tvs : list (request * uval)) : bool :=
-  let qvs := combine (parse_requested_tags db RwWrite (map fst tvs)) (map snd tvs) in
-  match write_build enc_body c qvs with
-  | Err _ => true                                                  (* a packet cannot be built *)
-  | Ok (plan, _) => negb (forallb (rmw_packet_ok qvs) plan)        (* a bit number beyond 63 with a true value *)
-  end.
-
-Lemma plan_facts_of c qvs wsst :
+Lemma plan_facts_of c qvs :
   NoDup (map q_id (map fst qvs)) -> (forall q, In q (map fst qvs) -> 0 <= q_id q) ->
-  map_res (mk_wreq enc_body c) qvs = Ok wsst ->
-  let ws := map fst wsst in
+  let ws := map fst (map (mk_wreq enc_body c) qvs) in
   let plan := write_build_requests (c_conn c) (c_micro800 c) ws in
   plan_facts (map fst qvs) qvs ws plan.
 Proof.
-  intros ND POS EW ws plan.
+  intros ND POS ws plan.
   assert (Hids : map w_id ws = map q_id (map fst qvs)).
-  { unfold ws. rewrite !map_map.
-    apply (map_res_ok_map _ (fun x => w_id (fst x)) (fun x => q_id (fst x)) _ _ EW).
-    intros [q v] [w st] _ Hm. cbn. now destruct (mk_wreq_spec _ _ _ _ _ _ Hm) as [_ [-> _]]. }
+  { unfold ws. rewrite !map_map. apply map_ext. intros [q v].
+    destruct (mk_wreq enc_body c (q, v)) as [w st] eqn:E. cbn [fst]. exact (proj1 (proj2 (mk_wreq_spec _ _ _ _ _ _ E))). }
   assert (NDw : NoDup (map w_id ws)) by (rewrite Hids; exact ND).
   assert (POSw : forall w, In w ws -> 0 <= w_id w).
   { intros w Hw. apply (in_map w_id) in Hw. rewrite Hids in Hw. apply in_map_iff in Hw. destruct Hw as [q [<- Hq]]. now apply POS. }
@@ -852,25 +875,24 @@ Qed.
 Lemma combine_fst {A B} : forall (a : list A) (b : list B), length a = length b -> map fst (combine a b) = a.
 Proof. induction a as [|x a IH]; destruct b as [|y b]; cbn; intros H; try discriminate; [reflexivity|]. f_equal. apply IH. lia. Qed.
 
-Theorem write_no_exception c db P tvs : write_guard c db tvs = false -> exists r, run_write enc_body c db P tvs = Ok r.
+(* write() returns, for EVERY list of (request, value) pairs and every peer *)
+Theorem write_no_exception c db P tvs : exists r, run_write enc_body c db P tvs = Ok r.
 Proof.
-  unfold write_guard, run_write. cbn zeta.
+  unfold run_write. cbn zeta.
   set (qs := parse_requested_tags db RwWrite (map fst tvs)). set (qvs := combine qs (map snd tvs)).
-  destruct (write_build enc_body c qvs) as [[plan sts]|e] eqn:EB; [|discriminate]. cbn [bind].
-  intros HG1. apply Bool.negb_false_iff in HG1. rewrite HG1.
+  unfold write_build.
   assert (Hfst : map fst qvs = qs).
   { unfold qvs. apply combine_fst. unfold qs. now rewrite parse_requested_length, !map_length. }
-  unfold write_build in EB. destruct (map_res (mk_wreq enc_body c) qvs) as [wsst|e] eqn:EW; cbn in EB; [|discriminate].
-  inversion EB; subst plan sts. clear EB.
   assert (POSq : forall q, In q (map fst qvs) -> 0 <= q_id q) by (rewrite Hfst; intros q Hq; eapply parse_requested_ids_nonneg, Hq).
   assert (NDq : NoDup (map q_id (map fst qvs))) by (rewrite Hfst; apply parse_requested_ids_NoDup).
-  pose proof (plan_facts_of c qvs wsst NDq POSq EW) as PF. cbn zeta in PF.
+  pose proof (plan_facts_of c qvs NDq POSq) as PF. cbn zeta in PF.
+  set (wsst := map (mk_wreq enc_body c) qvs) in *.
   set (plan := write_build_requests (c_conn c) (c_micro800 c) (map fst wsst)) in *.
   destruct (fan_out_lookup plan (send_requests (plc_of qs) P plan)) as [rs [E _]].
   - apply (pf_rids _ _ _ _ PF).
-  - eapply rids_neg; eassumption.
+  - exact (rids_neg qvs wsst plan PF).
   - apply NoDup_sublist_members, (pf_nodup _ _ _ _ PF).
-  - intros i Hi. eapply plan_ids_nonneg; try eassumption. apply rmw_members_sub, Hi.
+  - intros i Hi. apply (plan_ids_nonneg enc_body c qvs wsst plan POSq eq_refl PF), rmw_members_sub, Hi.
   - intros rid Hr. apply rlookup_some_of_key. rewrite send_requests_eq, map_rev, <- in_rev.
     unfold rids_of in Hr. apply in_flat_map in Hr. destruct Hr as [pk [Hpk Hr]]. destruct pk; try contradiction.
     destruct Hr as [<-|[]]. rewrite flat_map_concat_map, concat_map, map_map. apply in_concat.
@@ -882,113 +904,110 @@ Qed.
 Variable f : parsed -> uval -> reply.
 Variable g : text -> reply.
 
-Theorem write_results_map c db tvs :
-  write_guard c db tvs = false ->
-  exists r, run_write enc_body c db (wpeer_of enc_body f g c db tvs) tvs = Ok r
-    /\ results_of r = map (fun tv => write_outcome enc_body f g (uses_multi c (length tvs)) tv (parse_request_obj db RwWrite (fst tv))) tvs.
+Theorem write_results_map c db tvs r :
+  run_write enc_body c db (wpeer_of enc_body f g c db tvs) tvs = Ok r ->
+  results_of r = map (fun tv => write_outcome enc_body f g c (uses_multi c (length tvs)) tv (parse_request_obj db RwWrite (fst tv))) tvs.
 Proof.
-  intros HG. destruct (write_no_exception c db (wpeer_of enc_body f g c db tvs) tvs HG) as [r H]. exists r. split; [exact H|].
-  destruct (run_write_eq _ _ _ _ _ _ H) as [plan [sts [rs [HB [HM [HF ->]]]]]]. rewrite results_of_shape.
-  unfold wpeer_of in HF. cbn zeta in HF. rewrite HB in HF.
+  intros H.
+  destruct (run_write_eq _ _ _ _ _ _ H) as [plan [sts [rs [HB [HF ->]]]]]. rewrite results_of_shape.
+  unfold wpeer_of in HF. cbn zeta in HF. rewrite HB in HF. cbn [fst] in HF.
   set (qs := parse_requested_tags db RwWrite (map fst tvs)) in *. set (qvs := combine qs (map snd tvs)) in *.
   assert (Hfst : map fst qvs = qs).
   { unfold qvs. apply combine_fst. unfold qs. now rewrite parse_requested_length, !map_length. }
   assert (Hqv : qvs = qvs_from db 0 tvs) by (unfold qvs, qs, parse_requested_tags; apply qvs_from_eq).
   pose proof (write_build_states _ _ _ _ _ HB) as HS.
-  pose proof HB as HB'. unfold write_build in HB'.
-  destruct (map_res (mk_wreq enc_body c) qvs) as [wsst|e] eqn:EW; cbn in HB'; [|discriminate].
-  injection HB' as HP HS'. clear HS'.
+  unfold write_build in HB. injection HB as HP _.
   assert (NDq : NoDup (map q_id (map fst qvs))) by (rewrite Hfst; apply parse_requested_ids_NoDup).
   assert (POSq : forall q, In q (map fst qvs) -> 0 <= q_id q) by (rewrite Hfst; intros q Hq; eapply parse_requested_ids_nonneg, Hq).
-  assert (PF : plan_facts (map fst qvs) qvs (map fst wsst) plan).
-  { rewrite <- HP. apply (plan_facts_of c qvs wsst NDq POSq EW). }
+  assert (PF : plan_facts (map fst qvs) qvs (map fst (map (mk_wreq enc_body c) qvs)) plan).
+  { rewrite <- HP. apply (plan_facts_of c qvs NDq POSq). }
   rewrite <- Hfst in HF.
-  pose proof (write_lookup enc_body f g c qvs wsst plan NDq POSq EW PF rs) as WL. cbn zeta in WL. specialize (fun q v p => WL q v p HF).
+  pose proof (write_lookup enc_body f g c qvs (map (mk_wreq enc_body c) qvs) plan NDq POSq eq_refl PF rs) as WL.
+  cbn zeta in WL. specialize (fun q v p => WL q v p HF).
   (* pointwise *)
   rewrite HS, combine_map_self, map_map.
-  set (F := fun x : preq * uval => assemble_write (uses_multi c (length tvs)) rs (x, wstate_of enc_body (fst x) (snd x))).
+  set (F := fun x : preq * uval => assemble_write (uses_multi c (length tvs)) rs (x, wstate_of enc_body c (fst x) (snd x))).
   apply (nth_ext _ _ (exc_tag (ReqOther TypeError) TypeError) (exc_tag (ReqOther TypeError) TypeError)).
   { rewrite !map_length, Hqv. apply qvs_from_length. }
   intros k Hk. rewrite map_length, Hqv, qvs_from_length in Hk.
   rewrite (nth_indep _ _ (F (dflt_q, snd dflt_tv))) by (rewrite map_length, Hqv, qvs_from_length; exact Hk).
   rewrite (map_nth F).
-  set (G := fun tv => write_outcome enc_body f g (uses_multi c (length tvs)) tv (parse_request_obj db RwWrite (fst tv))).
+  set (G := fun tv => write_outcome enc_body f g c (uses_multi c (length tvs)) tv (parse_request_obj db RwWrite (fst tv))).
   rewrite (nth_indep (map G tvs) _ (G dflt_tv)) by (rewrite map_length; exact Hk). rewrite (map_nth G).
   assert (Hin : In (nth k qvs (dflt_q, snd dflt_tv)) qvs) by (apply nth_In; rewrite Hqv, qvs_from_length; exact Hk).
   rewrite Hqv in Hin |- * at 1. rewrite qvs_from_nth in Hin |- * by exact Hk. rewrite <- Hqv in Hin.
   set (tv := nth k tvs dflt_tv) in *. set (q := mkPreq (0 + Z.of_nat k) (fst tv) (parse_request_obj db RwWrite (fst tv))) in *.
-  unfold F, G, assemble_write, write_outcome, wstate_of. cbn [fst snd q_parsed q_request q].
+  unfold F, G, assemble_write, write_outcome. rewrite wstate_of_eq. cbn [fst snd q_parsed q_request q].
   destruct (parse_request_obj db RwWrite (fst tv)) as [p|e] eqn:EP; [|reflexivity].
   destruct (WL q (snd tv) p Hin eq_refl) as [WB WV].
   destruct (is_bit_write p) eqn:EB.
-  - destruct (WB eq_refl) as [t [-> ->]]. reflexivity.
+  - destruct (rmw_build c p) as [[]|x] eqn:ER; [|reflexivity].
+    destruct (WB eq_refl eq_refl) as [t [-> ->]]. reflexivity.
   - destruct (encode_value enc_body p (snd tv)) as [[n p']|] eqn:EE; [|reflexivity].
-    destruct (WV n p' eq_refl eq_refl) as [t [-> ->]]. reflexivity.
+    destruct (write_msg_len c p' n) as [m|x] eqn:EM; [|reflexivity].
+    destruct (WV n p' m eq_refl eq_refl EM) as [t [-> ->]]. reflexivity.
 Qed.
 
-(* two Tags that differ at most in the wording of an encoding error (the two planners word it differently) *)
+(* two Tags that differ at most in the wording of an error raised before anything is sent (the two
+   planners word encoding / build failures differently) *)
 Definition same_outcome (a b : tag) : Prop :=
   t_tag a = t_tag b /\ t_value a = t_value b /\ t_type a = t_type b /\ truthy a = truthy b
   /\ (t_error a = t_error b
-      \/ exists m1 m2, t_error a = Some (enc_err_text m1) /\ t_error b = Some (enc_err_text m2)).
+      \/ (t_value a = VNone /\ exists x y, t_error a = Some x /\ t_error b = Some y /\ x <> [] /\ y <> [])).
 
-Lemma write_outcome_planner m1 m2 tv pr :
-  same_outcome (write_outcome enc_body f g m1 tv pr) (write_outcome enc_body f g m2 tv pr).
+Lemma enc_err_text_nonempty m : enc_err_text m <> [].
+Proof. destruct m; discriminate. Qed.
+Lemma build_text_nonempty m e : build_prefix m ++ exn_name e <> [].
+Proof. intros H. apply app_eq_nil in H. destruct H as [_ H]. exact (exn_name_nonempty e H). Qed.
+
+Lemma write_outcome_planner c m1 m2 tv pr :
+  same_outcome (write_outcome enc_body f g c m1 tv pr) (write_outcome enc_body f g c m2 tv pr).
 Proof.
   unfold write_outcome, same_outcome.
   destruct pr as [p|e]; [|repeat (split; [reflexivity|]); left; reflexivity].
-  destruct (is_bit_write p); [repeat (split; [reflexivity|]); left; reflexivity|].
-  destruct (encode_value enc_body p (snd tv)) as [[n p']|]; [repeat (split; [reflexivity|]); left; reflexivity|].
-  repeat (split; [reflexivity|]). right. exists m1, m2. split; reflexivity.
+  destruct (is_bit_write p).
+  - destruct (rmw_build c p); [repeat (split; [reflexivity|]); left; reflexivity|].
+    repeat (split; [reflexivity|]). right. split; [reflexivity|]. do 2 eexists. split; [reflexivity|]. split; [reflexivity|].
+    split; apply build_text_nonempty.
+  - destruct (encode_value enc_body p (snd tv)) as [[n p']|].
+    + destruct (write_msg_len c p' n); [repeat (split; [reflexivity|]); left; reflexivity|].
+      repeat (split; [reflexivity|]). right. split; [reflexivity|]. do 2 eexists. split; [reflexivity|]. split; [reflexivity|].
+      split; apply build_text_nonempty.
+    + repeat (split; [reflexivity|]). right. split; [reflexivity|]. do 2 eexists. split; [reflexivity|]. split; [reflexivity|].
+      split; apply enc_err_text_nonempty.
 Qed.
 
 (* isolation: the outcome of request k in a call = its outcome when it is issued alone *)
-Corollary write_isolation c db tvs k :
-  (k < length tvs)%nat -> write_guard c db tvs = false -> write_guard c db [nth k tvs dflt_tv] = false ->
-  exists r r1 t1,
-    run_write enc_body c db (wpeer_of enc_body f g c db tvs) tvs = Ok r
-    /\ run_write enc_body c db (wpeer_of enc_body f g c db [nth k tvs dflt_tv]) [nth k tvs dflt_tv] = Ok r1
-    /\ r1 = ROne t1
-    /\ same_outcome (nth k (results_of r) (exc_tag (ReqOther TypeError) TypeError)) t1.
+Corollary write_isolation c db tvs k r r1 :
+  (k < length tvs)%nat ->
+  run_write enc_body c db (wpeer_of enc_body f g c db tvs) tvs = Ok r ->
+  run_write enc_body c db (wpeer_of enc_body f g c db [nth k tvs dflt_tv]) [nth k tvs dflt_tv] = Ok r1 ->
+  exists t1, r1 = ROne t1 /\ same_outcome (nth k (results_of r) (exc_tag (ReqOther TypeError) TypeError)) t1.
 Proof.
-  intros Hk G G1. destruct (write_results_map c db tvs G) as [r [H E]].
-  destruct (write_results_map c db [nth k tvs dflt_tv] G1) as [r1 [H1 E1]].
+  intros Hk H H1. pose proof (write_results_map c db tvs r H) as E.
+  pose proof (write_results_map c db [nth k tvs dflt_tv] r1 H1) as E1.
   destruct (write_result_shape _ _ _ _ _ _ H1) as [_ [S1 _]]. destruct (S1 eq_refl) as [t1 ->].
-  exists r, (ROne t1), t1. split; [exact H|]. split; [exact H1|]. split; [reflexivity|].
+  exists t1. split; [reflexivity|].
   cbn [results_of map] in E1. inversion E1 as [Ht]. rewrite E.
-  set (G0 := fun tv => write_outcome enc_body f g (uses_multi c (length tvs)) tv (parse_request_obj db RwWrite (fst tv))).
+  set (G0 := fun tv => write_outcome enc_body f g c (uses_multi c (length tvs)) tv (parse_request_obj db RwWrite (fst tv))).
   rewrite (nth_indep _ _ (G0 dflt_tv)) by (rewrite map_length; exact Hk). rewrite (map_nth G0). unfold G0.
   apply write_outcome_planner.
 Qed.
 
 (* a controller error status for the service that carries request k: a falsy Tag with the controller's text *)
-Lemma write_outcome_controller_error m tv p :
-  (is_bit_write p = true -> rp_ok (g (plc_tag p)) = false ->
-     let t := write_outcome enc_body f g m tv (inl p) in
+Lemma write_outcome_controller_error c m tv p :
+  (is_bit_write p = true -> rmw_build c p = Ok tt -> rp_ok (g (plc_tag p)) = false ->
+     let t := write_outcome enc_body f g c m tv (inl p) in
      t_tag t = ReqText (user_tag p) /\ t_error t = Some (rp_error (g (plc_tag p))) /\ truthy t = false)
-  /\ (forall n p', is_bit_write p = false -> encode_value enc_body p (snd tv) = Some (n, p') -> rp_ok (f p' (snd tv)) = false ->
-     let t := write_outcome enc_body f g m tv (inl p) in
+  /\ (forall n p' z, is_bit_write p = false -> encode_value enc_body p (snd tv) = Some (n, p') -> write_msg_len c p' n = Ok z ->
+     rp_ok (f p' (snd tv)) = false ->
+     let t := write_outcome enc_body f g c m tv (inl p) in
      t_tag t = ReqText (user_tag p) /\ t_error t = Some (rp_error (f p' (snd tv))) /\ truthy t = false).
 Proof.
   split.
-  - intros HB HR. cbn zeta. unfold write_outcome. rewrite HB. unfold reply_error. rewrite HR. cbn.
+  - intros HB HRB HR. cbn zeta. unfold write_outcome. rewrite HB, HRB. unfold reply_error. rewrite HR. cbn.
     repeat split. unfold truthy. cbn. apply Bool.andb_false_r.
-  - intros n p' HB HE HR. cbn zeta. unfold write_outcome. rewrite HB, HE. unfold reply_error. rewrite HR. cbn.
+  - intros n p' z HB HE HM HR. cbn zeta. unfold write_outcome. rewrite HB, HE, HM. unfold reply_error. rewrite HR. cbn.
     destruct (encode_value_fields _ _ _ _ _ HE) as [-> _]. repeat split. unfold truthy. cbn. apply Bool.andb_false_r.
 Qed.
 End Final.
-
-(* ------------------------------------------------------------------ the write guard is exact *)
-Theorem write_ok_guard enc_body c db P tvs r :
-  run_write enc_body c db P tvs = Ok r -> write_guard enc_body c db tvs = true -> False.
-Proof.
-  intros H G. destruct (run_write_eq _ _ _ _ _ _ H) as [plan [sts [rs [HB [HM _]]]]].
-  unfold write_guard in G. cbn zeta in G. rewrite HB, HM in G. discriminate.
-Qed.
-
-Theorem write_guard_raises enc_body c db P tvs :
-  write_guard enc_body c db tvs = true -> exists e, run_write enc_body c db P tvs = Err e.
-Proof.
-  unfold write_guard, run_write. cbn zeta. destruct (write_build enc_body c _) as [[plan sts]|e]; cbn [bind]; [|eauto].
-  intros H. apply Bool.negb_true_iff in H. rewrite H. eauto.
-Qed.
